@@ -374,6 +374,7 @@ func runC17(c *Ctx) {
 	ruleJSONHashCheck(c, "R17.3")
 	ruleHashedFieldsMirrored(c, "R17.4")
 	ruleGroupDecoderLeavesNodesAlone(c, "R17.6")
+	ruleInfoDecodedAsReceived(c, "R17.7")
 	ruleChainInfoInputs(c, "R17.5") // what is fed to the chain hash is the carried-over seed, not a value that changes with membership
 }
 
@@ -1217,4 +1218,60 @@ func passesThroughOnAllPathsFrom(fn *ssa.Function, a, b ssa.Instruction) bool {
 		}
 	}
 	return true
+}
+
+// R17.7: the chain info a node decodes is the packet it received. Between reception and chain.InfoFromProto no field of
+// the packet is overwritten: the beacon id travels in Metadata, and an Info decoded from a packet without it names
+// another chain (another hash) than the one the sender computed.
+func ruleInfoDecodedAsReceived(c *Ctx, rule string) {
+	c.ranRules[rule] = true
+	n := 0
+	for _, root := range c.P.SubjectFns() {
+		if isControlFn(root) || root.Parent() != nil {
+			continue
+		}
+		for _, fn := range withClosures(root) {
+			for _, ci := range callsIn(fn, func(ci ssa.CallInstruction) bool {
+				return strings.HasSuffix(calleeName(ci), "common/chain.InfoFromProto")
+			}) {
+				n++
+				pkt := canonValue(ci.Common().Args[0])
+				var overwritten []string
+				forEachInstr(fn, func(_ *ssa.BasicBlock, _ int, in ssa.Instruction) {
+					st, ok := in.(*ssa.Store)
+					if !ok {
+						return
+					}
+					fa, ok := st.Addr.(*ssa.FieldAddr)
+					if !ok || !strings.HasSuffix(typeShort(fa.X.Type()), "ChainInfoPacket") {
+						return
+					}
+					if canonValue(fa.X) == pkt && reachesInstr(in, ci.(ssa.Instruction)) {
+						overwritten = append(overwritten, fieldName(fa.X.Type(), fa.Field)+" at "+shortPos(c.P, in))
+					}
+				})
+				c.Ok(rule, fnShort(fn)+" decodes the chain info packet as received", shortPos(c.P, ci), len(overwritten) == 0,
+					ifs(len(overwritten) == 0, "no field of the packet is written before InfoFromProto", "overwritten before decoding: "+strings.Join(overwritten, ", ")))
+			}
+		}
+	}
+	c.Floor(rule, "InfoFromProto call sites", n, 4)
+}
+
+// reachesInstr: b can execute after a (same function).
+func reachesInstr(a, b ssa.Instruction) bool {
+	if a.Parent() != b.Parent() {
+		return false
+	}
+	if a.Block() == b.Block() {
+		if instrIndex(a) < instrIndex(b) {
+			return true
+		}
+	}
+	for _, s := range a.Block().Succs {
+		if reachableFrom(s, func(edge) bool { return false })[b.Block()] {
+			return true
+		}
+	}
+	return false
 }
